@@ -50,7 +50,7 @@ def bind_kwargs_written(fi):
                 if x.id in seen:
                     continue
                 seen.add(x.id)
-                lay = layers.layers_of_var(fi.node, x.id, 3)
+                lay = layers.layers_of_var(fi.node, x.id)
                 var = x.id
                 for lp in [s for s in stmts_of(fi.node) if isinstance(s, ast.For) and isinstance(s.target, ast.Name) and
                            isinstance(s.iter, (ast.Tuple, ast.List)) and all(isinstance(e, ast.Constant) for e in s.iter.elts)]:
@@ -688,7 +688,7 @@ def _forced_bind_key(fi, key, value_ok):
             if k.arg == key:
                 good = value_ok(k.value)
             elif k.arg is None:
-                lay = layers.layers_of_var(fi.node, k.value.id, 3) if isinstance(k.value, ast.Name) else layers.layers_of_expr(k.value)
+                lay = layers.layers_of_var(fi.node, k.value.id) if isinstance(k.value, ast.Name) else layers.layers_of_expr(k.value)
                 last_src = max([i for i, l in enumerate(lay) if l.kind == 'source'] or [-1])
                 hits = [(i, l) for i, l in enumerate(lay) if l.kind == 'literal' and key in (l.keys or []) and not l.below]
                 if hits:
